@@ -56,7 +56,7 @@ func runC01(w *World, c *Check) {
 		{Name: "ticket-valid-ok", Desc: "Ticket.Valid(skew) not ok ⇒ reject",
 			Main: []GuardPat{TruePass(valid + "#0")}},
 		{Name: "caddr-contains", Desc: "when the ticket lists client addresses, the peer address must be among them",
-			Main:   []GuardPat{TruePass(P("types.HostAddressesContains("+tktDEP+".CAddr, @2)"))},
+			Main:   []GuardPat{TruePass(P("types.HostAddressesContains(" + tktDEP + ".CAddr, @2)"))},
 			Unless: []GuardPat{{Kind: "gt", X: P("len(" + tktDEP + ".CAddr)"), Y: "0", PassWhen: false}, EqPass(P("len("+tktDEP+".CAddr)"), "0")}},
 		{Name: "authenticator-decrypts", Desc: "DecryptAuthenticator(ticket session key) error ⇒ reject",
 			Main: []GuardPat{EqPass(decAuth, "nil")}},
